@@ -232,6 +232,108 @@ let cmd_c15 (args : sx list) : sx =
        | OutOfFuel -> L [A "out-of-fuel"])
   | _ -> failwith "c15 args"
 
+(* ------------------------------------------- strings / matrices: engine *)
+let sx_cv (x : sx) : charvar =
+  match x with
+  | L [A "l"; c] -> Lit (sx_n c)
+  | L [A "v"; c] -> Var (sx_n c)
+  | _ -> failwith "charvar"
+let sx_spat (x : sx) : charvar list = sx_list sx_cv x
+let sx_mpat (x : sx) : charvar option list list =
+  sx_list (sx_list (fun c -> match c with A "-" -> None | c -> Some (sx_cv c))) x
+let sx_shost (x : sx) : n list = sx_list sx_n x
+let sx_mhost (x : sx) : n list list = sx_list (sx_list sx_n) x
+
+let sx_ccons (fk : sx -> 'k) (x : sx) : ('k, cpredicate) constraint0 =
+  match x with
+  | L (A "eq" :: args) -> { cpred = CBindingEq; cargs = List.map fk args }
+  | L (A "const" :: c :: args) -> { cpred = CConst (sx_n c); cargs = List.map fk args }
+  | _ -> failwith "char constraint"
+let ccons_sx (kf : 'k -> sx) (c : ('k, cpredicate) constraint0) : sx =
+  match c.cpred with
+  | CBindingEq -> L (A "eq" :: List.map kf c.cargs)
+  | CConst ch -> L (A "const" :: n_sx ch :: List.map kf c.cargs)
+
+let sx_automaton (fk : sx -> 'k) (fc : sx -> ('k, 'p) constraint0) (x : sx) : ('k, 'p) automaton =
+  match x with
+  | L [root; states] ->
+      { au_root = sx_n root;
+        au_states = sx_list (fun st ->
+          match st with
+          | L [id; det; ms; scope; co; eo; outs] ->
+              { a_id = sx_n id; a_det = sx_bool det;
+                a_matches = sx_list (fun m -> match m with L [p; ks] -> (sx_n p, sx_list fk ks) | _ -> failwith "match") ms;
+                a_scope = sx_list fk scope;
+                a_corder = sx_list sx_n co; a_eorder = sx_list sx_n eo;
+                a_out = sx_list (fun e -> match e with
+                  | L [eid; tgt; c] -> { e_id = sx_n eid; e_target = sx_n tgt;
+                                         e_cons = (match c with A "-" -> None | c -> Some (fc c)) }
+                  | _ -> failwith "edge") outs }
+          | _ -> failwith "state") states }
+  | _ -> failwith "automaton"
+
+let spm_sx (m : spm) : sx =
+  match m with SUnbound -> L [A "u"] | SBound (s, l) -> L [A "b"; n_sx s; n_sx l]
+let mpm_sx (m : mpm) : sx =
+  match m with
+  | MUnbound -> L [A "u"]
+  | MBound ((r, c), (a, b), (x, y)) -> L [A "b"; n_sx r; n_sx c; z_sx a; z_sx b; z_sx x; z_sx y]
+
+let matches_sx (f : 'm -> sx) (l : (n * 'm) list) : sx =
+  L (List.map (fun (p, m) -> L [n_sx p; f m]) l)
+
+let run_fuel = nat_of_int 200000
+
+let cmd_engine (args : sx list) : sx =
+  match args with
+  | [A "aut-run"; A "str"; aut; hosts] ->
+      let a = sx_automaton sx_n (sx_ccons sx_n) aut in
+      L (List.map (fun h -> res_sx (matches_sx spm_sx) (run string_dom run_fuel a (sx_shost h))) (match hosts with L l -> l | _ -> failwith "hosts"))
+  | [A "aut-run"; A "mat"; aut; hosts] ->
+      let a = sx_automaton sx_mkey (sx_ccons sx_mkey) aut in
+      L (List.map (fun h -> res_sx (matches_sx mpm_sx) (run matrix_dom run_fuel a (sx_mhost h))) (match hosts with L l -> l | _ -> failwith "hosts"))
+  | [A "cvec"; A "str"; p] -> L (List.map (ccons_sx n_sx) (s_cvec (sx_spat p)))
+  | [A "cvec"; A "mat"; p] -> L (List.map (ccons_sx mkey_sx) (m_cvec (sx_mpat p)))
+  | [A "single"; A "str"; p; h] ->
+      let cs = s_cvec (sx_spat p) in
+      (match single string_dom run_fuel cs (sx_shost h), match_exists string_dom run_fuel cs (sx_shost h) with
+       | Ok ms, Ok e -> L [L (List.map spm_sx ms); bool_sx e]
+       | r, _ -> res_sx (fun _ -> A "?") r)
+  | [A "single"; A "mat"; p; h] ->
+      let cs = m_cvec (sx_mpat p) in
+      (match single matrix_dom run_fuel cs (sx_mhost h), match_exists matrix_dom run_fuel cs (sx_mhost h) with
+       | Ok ms, Ok e -> L [L (List.map mpm_sx ms); bool_sx e]
+       | r, _ -> res_sx (fun _ -> A "?") r)
+  | [A "naive"; A "str"; ps; h] ->
+      (match naive string_dom run_fuel (sx_list (fun p -> s_cvec (sx_spat p)) ps) (sx_shost h) with
+       | Ok ms -> matches_sx spm_sx ms
+       | r -> res_sx (fun _ -> A "?") r)
+  | [A "naive"; A "mat"; ps; h] ->
+      (match naive matrix_dom run_fuel (sx_list (fun p -> m_cvec (sx_mpat p)) ps) (sx_mhost h) with
+       | Ok ms -> matches_sx mpm_sx ms
+       | r -> res_sx (fun _ -> A "?") r)
+  | [A "cert"; A "str"; A which; aut; pats; present] ->
+      let a = sx_automaton sx_n (sx_ccons sx_n) aut in
+      let cs = sx_list (fun p -> s_cvec (sx_spat p)) pats in
+      let pres = sx_list sx_bool present in
+      let ids = List.filteri (fun i _ -> List.nth pres i) (List.mapi (fun i _ -> n_of_int i) cs) in
+      let want c = String.contains which c in
+      let wf = if want 'w' then [A "wf"; bool_sx (wf_check string_dom a (compute_rank a) ids)] else [] in
+      let snd_ = if want 's' then [A "sound"; bool_sx (lab_ok string_dom s_goodb atoms_self a (compute_lab string_dom atoms_self a) cs)] else [] in
+      let cpl = if want 'c' then [A "complete"; bool_sx (cert_complete (char_entails N.eqb) (char_refutes N.eqb) a cs pres)] else [] in
+      L (wf @ snd_ @ cpl)
+  | [A "cert"; A "mat"; A which; aut; pats; present] ->
+      let a = sx_automaton sx_mkey (sx_ccons sx_mkey) aut in
+      let cs = sx_list (fun p -> m_cvec (sx_mpat p)) pats in
+      let pres = sx_list sx_bool present in
+      let ids = List.filteri (fun i _ -> List.nth pres i) (List.mapi (fun i _ -> n_of_int i) cs) in
+      let want c = String.contains which c in
+      let wf = if want 'w' then [A "wf"; bool_sx (wf_check matrix_dom a (compute_rank a) ids)] else [] in
+      let snd_ = if want 's' then [A "sound"; bool_sx (lab_ok matrix_dom m_goodb atoms_self a (compute_lab matrix_dom atoms_self a) cs)] else [] in
+      let cpl = if want 'c' then [A "complete"; bool_sx (cert_complete (char_entails mkey_eqb) (char_refutes mkey_eqb) a cs pres)] else [] in
+      L (wf @ snd_ @ cpl)
+  | _ -> failwith "engine args"
+
 let dispatch (x : sx) : sx =
   match x with
   | L (A "c12" :: args) -> cmd_c12 args
@@ -241,6 +343,7 @@ let dispatch (x : sx) : sx =
   | L (A "c16" :: args) -> cmd_c16 args
   | L (A "c14" :: args) -> cmd_c14 args
   | L (A "c15" :: args) -> cmd_c15 args
+  | L ((A ("aut-run" | "cvec" | "single" | "naive" | "cert")) :: _ as args) -> cmd_engine args
   | _ -> failwith "unknown command"
 
 let () =
